@@ -123,6 +123,28 @@ def r2(ctx):
                 if good:
                     ok = True
         if ok:
+            # the kept axes are exactly the positions where the mask is true: enumerate(mask) filtered by the mask entry, mapped to the position
+            # (or filter_map with `then`), nothing skipped or taken in between; a push loop is judged by its guard
+            k = s(keep)
+            stages = []
+            while k[0] == 'call' and k[2]:
+                stages.append(k)
+                k = k[2][0]
+            names = [x[1] for x in stages]
+            allowed = {'Itertools::collect_vec', 'Iterator::collect', 'Iterator::map', 'Iterator::filter', 'Iterator::filter_map', 'Iterator::enumerate', 'ArrayBase::iter',
+                       'IntoIterator::into_iter', 'Iterator::copied', 'Iterator::cloned'}
+            if stages and 'Iterator::enumerate' in names:
+                mask_ok = k == ('param', 'mask') and all(n_ in allowed for n_ in names)
+                for x in stages:
+                    if x[1] == 'Iterator::filter':
+                        cb_, cr_ = prune.closure_ret(F, x[2][1])
+                        mask_ok = mask_ok and bool(cr_) and len(cr_) == 1 and s(cr_[0]) == ('field', ('param', cb_.arg_names()[-1]), '1')
+                    if x[1] == 'Iterator::map':
+                        cb_, cr_ = prune.closure_ret(F, x[2][1])
+                        mask_ok = mask_ok and bool(cr_) and len(cr_) == 1 and s(cr_[0]) == ('field', ('param', cb_.arg_names()[-1]), '0')
+                if not mask_ok:
+                    ok = False
+        if ok:
             ctx.ok('C04.R2', 'AffTree::remove_axes#dims', 'in_dim := |kept axes| and every node matrix := its columns at the kept axes (same list)', b.span)
         else:
             ctx.bad('C04.R2', 'AffTree::remove_axes#dims', 'in_dim and the rewritten matrices are not derived from the same list of kept axes', b.span)
